@@ -528,6 +528,7 @@ def ioapi_ops(f, np):
     fresh = next('RENAMED%s' % (i or '') for i in range(100) if 'RENAMED%s' % (i or '') not in f.variables)
     ops = [
         ('copy', lambda f: f.copy()),
+        ('copy(data=False)', lambda f: f.copy(data=False)),
         ('slice(TSTEP=0)', lambda f: f.sliceDimensions(TSTEP=0)),
         ('slice(TSTEP=slice(1,3))', lambda f: f.sliceDimensions(TSTEP=slice(1, 3))),
         ('slice(TSTEP=slice(None,None,-1))', lambda f: f.sliceDimensions(TSTEP=slice(None, None, -1))),
